@@ -149,6 +149,35 @@ func run(t *testing.T, s world.Scenario, stopFirst bool) (v *verdict, nontrivial
 				lastStashed[e.ID] = false
 			}
 		}
+		// a stashed message must really be in the stash: for every actor that lived one undisturbed life and is
+		// running at the end, the white-box stash length is the number of messages whose last event is "stashed"
+		stashedAt := map[string][]int{}
+		disturbed := map[string]bool{}
+		firstInst := map[string]int{}
+		for _, e := range tr {
+			if fi, ok := firstInst[e.Actor]; !ok {
+				firstInst[e.Actor] = e.Inst
+			} else if fi != e.Inst {
+				disturbed[e.Actor] = true // a second instance: restarted, or the name was reused
+			}
+			if e.Kind == "kill" || strings.HasPrefix(e.Kind, "hook:prerestart") || strings.HasPrefix(e.Kind, "hook:restarted") {
+				disturbed[e.Actor] = true
+			}
+			if e.Kind == "msg" && e.ID != 0 && lastStashed[e.ID] && e.Note == "stashed" {
+				stashedAt[e.Actor] = append(stashedAt[e.Actor], e.ID)
+			}
+		}
+		for _, a := range w.Sys.VerifActors() {
+			ids := stashedAt[a.Path]
+			if len(ids) == 0 || disturbed[a.Path] || a.State != 0 || a.Zombie {
+				continue
+			}
+			lab["stash-length-checked"] = true
+			if a.Stash < len(ids) {
+				v = &verdict{"C03/lost|stash-dropped", fmt.Sprintf("actor %s stashed messages %v and never got them back, but its stash holds %d: %d messages are neither handled, nor stashed, nor dead-lettered. trace: %s", a.Path, ids, a.Stash, len(ids)-a.Stash, world.Fmt(tailEv(world.PerActor(tr)[a.Path], 14)))}
+				return
+			}
+		}
 		dead := map[int]int{}
 		for _, o := range obs {
 			if o.Type == "DeadLetter" && o.MsgID != 0 {
